@@ -169,3 +169,101 @@ Theorem C05_hypotheses_satisfiable :
   codec_laws toy_ext /\ (forall p, x_text toy_ext (x_mime_ext toy_ext p) = x_mime_ext toy_ext p).
 Proof. exact codec_laws_satisfiable. Qed.
 Print Assumptions C05_hypotheses_satisfiable.
+
+(** * The same theorems on C16's codec models
+
+    [X_model iph txt mime] fills the codec record with the Gallina models of
+    url.URL.String / url.Parse (Href.v), strconv.Quote / Unquote (Quote.v) and
+    time.Format(http.TimeFormat) / http.ParseTime (Civil.v).  The round-trip laws are
+    no longer hypotheses: they follow from C16's theorems (C16_href_roundtrip,
+    C16_etag_unquote_quote, C16_httpdate_roundtrip) on exactly C16's domains, which
+    are C05's ([C05_path_domain_is_C16], [C05_time_domain_is_C16]).  What remains a
+    parameter: [iph] (strconv.IsPrint above U+00FF; any table), [mime]
+    (mime.TypeByExtension) and [txt] (XML character data) with the single remaining
+    hypothesis [text_transparent iph txt]: encoding/xml hands the four encoders'
+    texts on unchanged. *)
+From GW Require Import DavClientCodecs DavClientCodecsProofs.
+From GW Require Civil Href.
+
+Theorem C05_codec_laws_modelled_codecs : forall iph txt mime,
+  text_transparent iph txt -> codec_laws (X_model iph txt mime).
+Proof. exact model_codec_laws. Qed.
+Print Assumptions C05_codec_laws_modelled_codecs.
+
+Theorem C05_path_domain_is_C16 : forall p, wf_path p = true -> Href.href_in_domain p = true.
+Proof. exact wf_path_in_domain. Qed.
+Print Assumptions C05_path_domain_is_C16.
+
+Theorem C05_time_domain_is_C16 : forall t, wf_time t = true -> is_zero t = false ->
+  (0 <= Civil.year_of_unix (t_sec t) <= 9999)%Z.
+Proof. exact wf_time_year. Qed.
+Print Assumptions C05_time_domain_is_C16.
+
+Theorem C05_model_meets_spec_modelled_codecs : forall iph txt mime, text_transparent iph txt ->
+  forall fs ep, ep <> "" -> forall o,
+  let '(calls, out) := run_op (X_model iph txt mime) fs ep o in
+  spec_ok (X_model iph txt mime) fs ep o calls out = true.
+Proof. exact model_meets_spec_modelled. Qed.
+Print Assumptions C05_model_meets_spec_modelled_codecs.
+
+Theorem C05_stat_roundtrip_modelled_codecs : forall iph txt mime, text_transparent iph txt ->
+  forall fs ep name fi,
+  fs_stat fs (resolve_href ep name) = FOk fi -> wf_info (X_model iph txt mime) fi = true ->
+  client_stat (X_model iph txt mime) fs ep name = ([CStat (resolve_href ep name)], OInfo (view fi)).
+Proof. exact stat_roundtrip_modelled. Qed.
+Print Assumptions C05_stat_roundtrip_modelled_codecs.
+
+Theorem C05_file_info_roundtrip_modelled_codecs : forall iph txt mime, text_transparent iph txt ->
+  forall fi, wf_info (X_model iph txt mime) fi = true ->
+  file_info_from_response (X_model iph txt mime) (wire_of (X_model iph txt mime) fi) = Ok (view fi).
+Proof. exact file_info_roundtrip_modelled. Qed.
+Print Assumptions C05_file_info_roundtrip_modelled_codecs.
+
+Theorem C05_readdir_roundtrip_modelled_codecs : forall iph txt mime, text_transparent iph txt ->
+  forall fs ep name recursive fi l,
+  let p := resolve_href ep name in
+  fs_stat fs p = FOk fi -> i_dir fi = true -> fs_readdir fs p recursive = FOk l ->
+  forallb (wf_info (X_model iph txt mime)) l = true ->
+  client_readdir (X_model iph txt mime) fs ep name recursive = ([CStat p; CReadDir p recursive], OList (map view l)).
+Proof. exact readdir_roundtrip_modelled. Qed.
+Print Assumptions C05_readdir_roundtrip_modelled_codecs.
+
+Theorem C05_readdir_scope_modelled_codecs : forall iph txt mime, text_transparent iph txt ->
+  forall dmeta t writes ep name recursive segs ch,
+  (forall p, txt (mime p) = mime p) ->
+  (forall q, (fst (dmeta q) < big)%N /\ (snd (dmeta q) < big)%N) ->
+  (forall n, t = Some n -> wf_node n) ->
+  local_segs (resolve_href ep name) = Ok segs ->
+  geto t segs = Some (Dir ch) ->
+  exists l,
+    client_readdir (X_model iph txt mime) (local_fs (X_model iph txt mime) dmeta t writes) ep name recursive =
+      ([CStat (resolve_href ep name); CReadDir (resolve_href ep name) recursive], OList l) /\
+    NoDup (map i_path l) /\
+    (forall e, In e l ->
+       exists q n, i_path e = external_path q /\ resolve_href ep (i_path e) = i_path e /\
+         local_segs (i_path e) = Ok q /\ geto t q = Some n /\ scope recursive segs q /\
+         match n with
+         | Dir _ => i_dir e = true
+         | File c m => i_dir e = false /\ i_size e = strlen c /\ i_etag e = etag_of m (strlen c) /\
+                       i_mod e = to_second (instant_of_ns m)
+         end) /\
+    (forall q n, geto t q = Some n -> scope recursive segs q -> In (external_path q) (map i_path l)).
+Proof. exact readdir_scope_modelled. Qed.
+Print Assumptions C05_readdir_scope_modelled_codecs.
+
+Theorem C05_stat_local_modelled_codecs : forall iph txt mime, text_transparent iph txt ->
+  forall dmeta t writes ep name segs n,
+  (forall p, txt (mime p) = mime p) ->
+  (forall q, (fst (dmeta q) < big)%N /\ (snd (dmeta q) < big)%N) ->
+  (forall n0, t = Some n0 -> wf_node n0) ->
+  local_segs (resolve_href ep name) = Ok segs ->
+  geto t segs = Some n ->
+  client_stat (X_model iph txt mime) (local_fs (X_model iph txt mime) dmeta t writes) ep name =
+    ([CStat (resolve_href ep name)], OInfo (view (fi_of_node (X_model iph txt mime) dmeta segs n))).
+Proof. exact stat_local_modelled. Qed.
+Print Assumptions C05_stat_local_modelled_codecs.
+
+(** the remaining hypothesis is satisfiable *)
+Theorem C05_text_transparent_satisfiable : forall iph, text_transparent iph (fun s => s).
+Proof. exact text_transparent_id. Qed.
+Print Assumptions C05_text_transparent_satisfiable.
